@@ -232,7 +232,12 @@ type finding struct{ key, what string }
 func (w *world) scan(roots []int64) (f *finding, reads int) {
 	defer func() {
 		if r := recover(); r != nil && f == nil {
-			f = &finding{"C26:scan-panic", fmt.Sprint(r)}
+			msg := fmt.Sprint(r)
+			if strings.Contains(msg, "read-only") { // a read-only query view tried to write (index maintenance on load)
+				f = &finding{"C26:query-load-writes", "a read-only view attempted a DB write while loading / reading: " + msg}
+			} else {
+				f = &finding{"C26:scan-panic", msg}
+			}
 		}
 	}()
 	if !w.up || !w.loadOK {
@@ -381,7 +386,24 @@ func replay(cfg config, beh []mbt.Step) (o outcome) {
 			case "RGet":
 				k := st.Str("k")
 				w.lres.nextKey = k
+				if w.loader == nil || w.loader.Done {
+					// the real load ended (error) where the model has a ready view: nothing was read, nothing to judge
+					if o.drift == "" {
+						o.drift = fmt.Sprintf("step %d RGet: the loader is not running (%s)", i, w.lres.err)
+					}
+					return
+				}
+				w.lres.got = "<no read>"
 				stepLoader(w, act, &o, i)
+				for n := 0; n < 4 && w.lres.got == "<no read>" && !w.loader.Done; n++ {
+					stepLoader(w, act, &o, i) // the gates sit elsewhere than in the model: go on until the read has happened
+				}
+				if w.lres.got == "<no read>" {
+					if o.drift == "" {
+						o.drift = fmt.Sprintf("step %d RGet: the loader did not perform the read (%s)", i, w.lres.err)
+					}
+					return
+				}
 				if w.loader.Panic != nil {
 					o.viol = &finding{"C26:loader-panic", fmt.Sprintf("read-only loader panicked: %v | %s", w.loader.Panic, mbt.ShortStack(w.loader.Stack))}
 					return
